@@ -1,10 +1,9 @@
 from registry_common import COMMON_ASSUME
 
 ENTRY = dict(
-        prop_modules=["C19", "TieTypes", "TieTypesB", "TieTypesC", "TieTypesD"],
         title="Primitive wire types pack, unpack and size consistently for every value",
         design_ref="DESIGN.md section 6 / C19",
-        prop_modules=["C19", "C19Sweep"],
+        prop_modules=["C19", "C19Sweep", "TieTypes", "TieTypesB", "TieTypesC", "TieTypesD"],
         technique="Lean 4 theorems over all values / all trailing bytes (codec model of data_types.py) + translator table of the struct formats + correspondence with to_bytes/from_bytes/value/size and with the regulator-data consumer on a real EcoMAX device",
         level_text=(
             "Proof: `C19.int_lawful`, `float_lawful`, `double_lawful`, `ipv4_lawful`, `ipv6_lawful`, `string_lawful`, `var_lawful` show for "
